@@ -14,6 +14,11 @@
 (* and the validation of executions recorded from the real code (HandOffTrace: *)
 (* results as observed).                                                       *)
 (*                                                                             *)
+(* A burst of n calls of one producer with nothing else in between is ONE    *)
+(* macro action (BBurst_, VBurst_) - equal to its n single steps by the laws   *)
+(* checked in HandOffMC - so that histories at counter boundaries (2^8, 2^16   *)
+(* calls between two consumer calls) cost TLC one transition.                  *)
+(*                                                                             *)
 (* Strict = FALSE is exactly the property statement:                           *)
 (*   - a batch takes, for every producer, a PREFIX of that producer's pending  *)
 (*     elements (so no element is lost, duplicated, invented or overtaken by a *)
@@ -68,19 +73,41 @@ Init == /\ pend = [p \in Producers |-> <<>>]
 \* TransactionalBuffer
 \* (X_ is the effect of call X on the contract state; X adds the ghost record)
 
+\* state after push_back(v) by p / after the burst of push_backs vs by p (functions of the state, so that
+\* the law "a burst is its single steps" can be stated as an ASSUME, see HandOffMC)
+PushF(pd, p, v)       == [pd EXCEPT ![p] = Append(@, v)]
+BurstPushF(pd, p, vs) == [pd EXCEPT ![p] = @ \o vs]
+RECURSIVE FoldPush(_, _, _)
+FoldPush(pd, p, vs) == IF vs = <<>> THEN pd ELSE FoldPush(PushF(pd, p, Head(vs)), p, Tail(vs))
+
 \* push_back(v) by producer p
 BPush_(p, v) ==
   /\ p \in Producers /\ v[1] = p
-  /\ pend' = [pend EXCEPT ![p] = Append(@, v)]
+  /\ pend' = PushF(pend, p, v)
+  /\ UNCHANGED vvars
+
+\* MACRO ACTION: Len(vs) consecutive push_back calls of producer p (elements vs, in this order) during
+\* which no other call on the buffer takes effect - one step whatever the length, so that histories
+\* with bursts of 2^16 calls cost one transition.  Law (HandOffMC): BurstPushF = FoldPush.
+BBurst_(p, vs) ==
+  /\ p \in Producers /\ SelectSeq(vs, LAMBDA e : e[1] # p) = <<>>   \* all elements are p's (written with SelectSeq, not \A, so
+  /\ pend' = BurstPushF(pend, p, vs)                                 \* that TLC handles 2^16 elements iteratively, in one pass)
   /\ UNCHANGED vvars
 
 \* consume() returned `batch`
 BConsume_(batch) ==
-  /\ \A i \in DOMAIN batch : batch[i][1] \in Producers            \* nothing invented
+  /\ SelectSeq(batch, LAMBDA e : e[1] \notin Producers) = <<>>     \* nothing invented
   /\ \A p \in Producers : /\ IsPrefix(ProjP(batch, p), pend[p])   \* nothing duplicated / reordered within a producer
                           /\ Strict => ProjP(batch, p) = pend[p]
   /\ pend' = [p \in Producers |-> Drop(pend[p], Len(ProjP(batch, p)))]
   /\ UNCHANGED vvars
+
+\* consume() returned `batch`, and the call was made while every producer had stopped (no push_back in
+\* flight or later): the execution up to the response of this call is itself a complete execution whose
+\* producers have stopped and whose consumer has called consume() once more - the clause of BEnd_ applies
+BConsumeQ_(batch) ==
+  /\ BConsume_(batch)
+  /\ \A p \in Producers : pend'[p] = <<>>
 
 \* size() returned n
 BSize_(n) == n = Pending /\ UNCHANGED <<pend, asg, cur>>
@@ -93,6 +120,7 @@ BEnd_ == (\A p \in Producers : pend[p] = <<>>)                    \* nothing los
          /\ UNCHANGED <<pend, asg, cur>>
 
 BPush(p, v)     == BPush_(p, v)     /\ last' = [op |-> "push",    arg |-> v,     res |-> <<>>]
+BBurst(p, vs)   == BBurst_(p, vs)   /\ last' = [op |-> "bpush",   arg |-> vs,    res |-> <<>>]
 BConsume(batch) == BConsume_(batch) /\ last' = [op |-> "consume", arg |-> <<>>,  res |-> batch]
 BSize(n)        == BSize_(n)        /\ last' = [op |-> "size",    arg |-> <<>>,  res |-> n]
 BEmpty(b)       == BEmpty_(b)       /\ last' = [op |-> "empty",   arg |-> <<>>,  res |-> b]
@@ -101,8 +129,17 @@ BEnd            == BEnd_            /\ last' = [op |-> "end",     arg |-> "buf",
 -------------------------------------------------------------------------------
 \* TransactionalValue
 
+AssignF(a, v)       == Append(a, v)
+BurstAssignF(a, vs) == a \o vs
+RECURSIVE FoldAssign(_, _)
+FoldAssign(a, vs) == IF vs = <<>> THEN a ELSE FoldAssign(AssignF(a, Head(vs)), Tail(vs))
+
 \* tv = v by the producer
-VAssign_(v) == asg' = Append(asg, v) /\ UNCHANGED <<pend, cur>>
+VAssign_(v) == asg' = AssignF(asg, v) /\ UNCHANGED <<pend, cur>>
+
+\* MACRO ACTION: Len(vs) consecutive assignments (values vs, in this order) during which no consumer call
+\* takes effect; the queued value is then the last of the burst.  Law (HandOffMC): BurstAssignF = FoldAssign.
+VBurst_(vs) == asg' = BurstAssignF(asg, vs) /\ UNCHANGED <<pend, cur>>
 
 \* update() returned ret
 VUpdate_(ret) ==
@@ -113,6 +150,13 @@ VUpdate_(ret) ==
                  /\ Strict => cur = Len(asg)
   /\ UNCHANGED <<pend, asg>>
 
+\* update() returned ret, and the call was made while the producer had stopped (no assignment in flight
+\* or later): the execution up to the response of this call is a complete execution in which the producer
+\* has stopped and the consumer has called update() once more - the clause of VEnd_ applies
+VUpdateQ_(ret) ==
+  /\ cur' = Len(asg)
+  /\ VUpdate_(ret)
+
 \* get() (or ref()) returned v
 VGet_(v) == v = ValAt(cur) /\ UNCHANGED <<pend, asg, cur>>
 
@@ -121,6 +165,7 @@ VEnd_ == cur = Len(asg)                                           \* the consume
          /\ UNCHANGED <<pend, asg, cur>>
 
 VAssign(v)   == VAssign_(v)   /\ last' = [op |-> "assign", arg |-> v,     res |-> <<>>]
+VBurst(vs)   == VBurst_(vs)   /\ last' = [op |-> "burst",  arg |-> vs,    res |-> <<>>]
 VUpdate(ret) == VUpdate_(ret) /\ last' = [op |-> "update", arg |-> <<>>,  res |-> ret]
 VGet(v)      == VGet_(v)      /\ last' = [op |-> "get",    arg |-> <<>>,  res |-> v]
 VEnd         == VEnd_         /\ last' = [op |-> "end",    arg |-> "val", res |-> <<>>]
